@@ -83,7 +83,7 @@ def captures():
     out = []
     for n in range(1, 5):
         for pos in range(n):
-            for hole in ["_", "_x", "_a_b", "_Foo"]:
+            for hole in ["_", "_x", "_Foo"] + (["_a_b"] if n <= 2 else []):
                 for style in ("plain", "labelled-hole", "labelled-others", "record", "qualified", "record-qualified"):
                     args = [f"a{i}" for i in range(n)]
                     if style == "labelled-others":
